@@ -304,17 +304,30 @@ where
         };
 
         let frame = Frame::Message(req_payload);
-        self.write_half.lock().await.send(frame).await?;
 
-        let response = tokio::time::timeout(self.request_timeout, rx)
-            .await
-            .map_err(|_| SeliumError::RequestTimeout)?
-            .map_err(|_| SeliumError::RequestFailed)?;
+        // The timeout covers dispatching the request as well as waiting for its reply: a request
+        // that cannot be written because the stream is blocked must also fail in time.
+        let response =
+            tokio::time::timeout(self.request_timeout, exchange(&self.write_half, frame, rx))
+                .await
+                .map_err(|_| SeliumError::RequestTimeout)??;
 
         let decoded = self.decode_response(response)?;
 
         Ok(decoded)
     }
+}
+
+async fn exchange(
+    write_half: &SharedWriteHalf,
+    frame: Frame,
+    rx: Receiver<Bytes>,
+) -> Result<Bytes> {
+    write_half.lock().await.send(frame).await?;
+
+    let response = rx.await.map_err(|_| SeliumError::RequestFailed)?;
+
+    Ok(response)
 }
 
 fn poll_replies(read_half: SharedReadHalf, pending_requests: SharedPendingRequests) {
